@@ -71,6 +71,11 @@ def install_twisted(reg):
 
     em["twisted.internet.interfaces.IHalfCloseableProtocol.providedBy"] = provided_by
     em["twisted.internet.interfaces.IHalfCloseableProtocol"] = adapt
+    # ISubChannel.providedBy(x): true of SubChannel instances (the class is declared @implementer(ISubChannel))
+    em["classattr:ISubChannel.providedBy"] = lambda it: VExt("wormhole._interfaces.ISubChannel.providedBy")
+    em["wormhole._interfaces.ISubChannel.providedBy"] = lambda it, args, kw: VBool(
+        (isinstance(it.force(args[0]), VOpaque) and it.force(args[0]).name == "SubChannel") or
+        (isinstance(it.force(args[0]), VObj) and it.force(args[0]).cls == "SubChannel"))
     em["collections.defaultdict"] = lambda it, args, kw: VDict({})
     em["twisted.internet.defer.Deferred"] = lambda it, args, kw: VObj("Deferred")
 
@@ -105,6 +110,16 @@ def install_spec(reg):
 
     sf["sc_inv"] = sc_inv
 
+    def allows(it, expected, name):
+        """the application's declaration admits this subprotocol name: no set declared, or the name is in it"""
+        if expected is NONE:
+            return VBool(True)
+        if isinstance(expected, VOpt):
+            return VBool(z3.Or(expected.isnone, z3.Select(expected.inner.z, name.z)))
+        return VBool(z3.Select(expected.z, name.z))
+
+    sf["allows"] = allows
+
     def iter_bcall_arg(it, name, i):
         """argument i of THE boundary call made in the current loop iteration; proves that the
         iteration made exactly one boundary call and that it is `name`"""
@@ -131,6 +146,55 @@ def install_spec(reg):
 
     sf["bcall_kwarg"] = bcall_kwarg
 
+    def bcall_recv(it, name, k):
+        name, k = it.concrete(name), it.concrete(k)
+        evs = [e for e in it.ctx.trace if e[0] == "bcall" and e[1][1] == name]
+        if k >= len(evs) or "recv" not in evs[k][2]:
+            return VObj("<missing>")
+        return evs[k][2]["recv"]
+
+    sf["bcall_recv"] = bcall_recv
+
+    def iter_call_arg(it, suffix, i):
+        """argument i of THE call (by contract) of a function named ...suffix in the current loop
+        iteration; proves there is exactly one such call in the iteration"""
+        suffix, i = it.concrete(suffix), it.concrete(i)
+        tr = it.ctx.trace
+        start = max([k for k, e in enumerate(tr) if e[0] == "loop-body-start"] + [-1])
+        evs = [e for e in tr[start + 1:] if e[0] == "call" and e[1][0].endswith(suffix)]
+        it.ctx.prove(z3.BoolVal(len(evs) == 1), f"exactly-one[{suffix}]-per-iteration",
+                     {"kind": "trace", "definite": True,
+                      "src": f"each iteration calls {suffix} exactly once (found {len(evs)})"})
+        if len(evs) != 1:
+            raise OutOfSubset("iteration does not make the single expected call")
+        return evs[0][1][1][i]
+
+    sf["iter_call_arg"] = iter_call_arg
+
+    def news(it, clsname):
+        clsname = it.concrete(clsname)
+        return VInt(sum(1 for e in it.ctx.trace if e[0] == "new" and e[1][0] == clsname))
+
+    sf["news"] = news
+
+    def new_field(it, clsname, k, field):
+        clsname, k, field = it.concrete(clsname), it.concrete(k), it.concrete(field)
+        evs = [e for e in it.ctx.trace if e[0] == "new" and e[1][0] == clsname]
+        if k >= len(evs) or field not in evs[k][1][1]:
+            return VObj("<missing>")
+        return evs[k][1][1][field]
+
+    sf["new_field"] = new_field
+
+    def new_obj(it, clsname, k):
+        clsname, k = it.concrete(clsname), it.concrete(k)
+        evs = [e for e in it.ctx.trace if e[0] == "new" and e[1][0] == clsname]
+        if k >= len(evs):
+            return VObj("<missing>")
+        return evs[k][1][2]
+
+    sf["new_obj"] = new_obj
+
     def n_calls(it, suffix):
         suffix = it.concrete(suffix)
         return VInt(sum(1 for e in it.ctx.trace if e[0] == "call" and e[1][0].endswith(suffix)))
@@ -147,12 +211,60 @@ def install_spec(reg):
     sf["call_arg"] = call_arg
 
 
+def recording_boundary(it, recv, meth, args, kwargs, fr):
+    """generic boundary call, with the receiver kept in the event (bcall_recv)"""
+    cls = recv.cls if isinstance(recv, VObj) else recv.name
+    it.ctx.event("bcall", cls, meth, list(args), dict(kwargs), recv=recv)
+    rt = it.reg.boundary_returns.get(f"{cls}.{meth}") or it.reg.boundary_returns.get(f"*.{meth}")
+    if rt is None:
+        return NONE
+    return it.fresh(rt, f"{cls}_{meth}")
+
+
+def new_as_boundary(reg, clsname, as_cls=None, fields=None):
+    """construction of a collaborator class is a boundary event ("new", class, {attr field: value});
+    the object handed back is a boundary object (calls on it are recorded, not executed)"""
+    def h(it, cls, args, kwargs):
+        cd = cls.cdef
+        bound = {}
+        names = list(cd.attr_fields) if cd is not None and cd.attr_fields else None
+        if names is None and cd is not None and "__init__" in cd.methods:
+            names = [a.arg for a in cd.methods["__init__"].node.args.args][1:]
+        names = names or []
+        for i, a in enumerate(args):
+            bound[names[i] if i < len(names) else f"arg{i}"] = a
+        for k, v in kwargs.items():
+            # attrs strips the leading underscore for the __init__ keyword
+            key = k if k in names else ("_" + k if "_" + k in names else k)
+            bound[key] = v
+        o = VObj(as_cls or (clsname + "B"))
+        for f, t in (fields or {}).items():
+            o.fields[f] = it.fresh(t, f"{clsname}.{f}")
+        it.ctx.event("new", clsname, bound, o)
+        return o
+    reg.ext_models["new:" + clsname] = h
+
+
 def base_registry():
     reg = make_registry()
     install_trace_funcs(reg)
     register_classes(reg, ["wormhole/errors.py", SUB, INB])
     reg.automat = AutomatSupport()
     reg.automat.notransition_raises = True
+    reg.boundary["*.*"] = recording_boundary
+    reg.boundary_returns["Factory.buildProtocol"] = "opaque[Protocol]"
+    reg.class_fields["ManagerB"] = {"_subprotocol_factories": "obj[SubchannelDemultiplex]"}
+    reg.class_fields["SubchannelDemultiplex"] = dict(DEMUX_FIELDS)
+    # inside Inbound a SubChannel is a collaborator: its construction is a boundary event and the handle is opaque
+    def new_subchannel(it, cls, args, kwargs):
+        names = list(cls.cdef.attr_fields)
+        o = it.fresh("opaque[SubChannel]", "new_subchannel")
+        it.ctx.event("new", "SubChannel", {names[i]: a for i, a in enumerate(args)}, o)
+        return o
+    reg.ext_models["new:SubChannel"] = new_subchannel
+    # attrs value class with one str field: modelled as a named tuple (structural equality)
+    reg.ext_models["new:SubchannelAddress"] = lambda it, cls, args, kwargs: VTuple(
+        [args[0] if args else kwargs["subprotocol"]], "SubchannelAddress", ["subprotocol"])
     install_twisted(reg)
     install_spec(reg)
     return reg
@@ -199,6 +311,11 @@ def sc_clauses(inp):
          "bcalls('subchannel_closed') == 0 or (bcall_arg('subchannel_closed', 0, 0) == self._scid and "
          "bcall_arg('subchannel_closed', 0, 1) is self)"),
         ("no-other-callback", f"len(bcall_names()) == bcalls({_ALL})"),
+        ("callbacks-go-to-the-attached-protocol",
+         "(bcalls('dataReceived') == 0 or bcall_recv('dataReceived', 0) == self._protocol) and "
+         "(bcalls('connectionLost') == 0 or bcall_recv('connectionLost', 0) == self._protocol) and "
+         "(bcalls('readConnectionLost') == 0 or bcall_recv('readConnectionLost', 0) == self._protocol) and "
+         "(bcalls('writeConnectionLost') == 0 or bcall_recv('writeConnectionLost', 0) == self._protocol)"),
         ("write-side-never-reopens", "not w_open(self) or old(w_open(self)) or old(in_state(self, 'unconnected'))"),
         ("read-side-never-reopens", "not r_open(self) or old(r_open(self)) or old(in_state(self, 'unconnected'))"),
         ("closed-is-absorbing", "not old(in_state(self, 'closed')) or in_state(self, 'closed')"),
@@ -317,11 +434,241 @@ SC_CONTRACTS = [
                       ("writeConnectionLost-with-it", "bcalls('writeConnectionLost') == bcalls('send_close')")]),
 ]
 
-CONTRACTS = list(SC_CONTRACTS)
+
+# ------------------------------------------------------------------ SubchannelDemultiplex / Inbound
+OPEN_T = "tuple[opaque[SubChannel],nt[SubchannelAddress]]"
+DEMUX_FIELDS = {"_factories": "dict[str,opaque[Factory]]", "_pending_opens": f"defaultdict[str,seq[{OPEN_T}]]",
+                "_expected": "opt[set[str]]"}
+NAME = "peer_addr.subprotocol"
+REFUSED = f"({NAME} not in self._factories) and not allows(self._expected, {NAME})"
+
+DEMUX_CONTRACTS = [
+    Contract(f"{SUB}:SubchannelDemultiplex._connect", props=[PROP],
+             params={"factory": "opaque[Factory]", "t": "opaque[SubChannel]", "peer_addr": "nt[SubchannelAddress]"},
+             self_fields=DEMUX_FIELDS, modifies=[],
+             effects=[("buildProtocol", ["peer_addr"]), ("_set_protocol", []), ("makeConnection", ["t"]),
+                      ("_deliver_queued_data", [])],
+             internal_ensures=[
+                 ("built-by-the-listener", "bcall_recv('buildProtocol', 0) == factory"),
+                 ("that-protocol-attached-to-this-subchannel",
+                  "bcall_recv('_set_protocol', 0) == t and bcall_arg('_set_protocol', 0, 0) == p"),
+                 ("that-protocol-connected-to-this-subchannel", "bcall_recv('makeConnection', 0) == p"),
+                 ("then-queued-inbound-data-delivered", "bcall_recv('_deliver_queued_data', 0) == t")],
+             note="one buildProtocol + one makeConnection per OPEN, then whatever arrived early is delivered"),
+    Contract(f"{SUB}:SubchannelDemultiplex._got_open", props=[PROP],
+             params={"t": "opaque[SubChannel]", "peer_addr": "nt[SubchannelAddress]"},
+             self_fields=DEMUX_FIELDS, modifies=["_pending_opens"],
+             raises_exactly={"UnexpectedSubprotocol": REFUSED},
+             ensures_raise={"UnexpectedSubprotocol": [
+                 ("not-held-open", "n_calls('_connect') == 0 and len(bcall_names()) == 0 and "
+                                   "forall(lambda k: self._pending_opens[k] == old(self._pending_opens)[k], 'str')")]},
+             ensures=[
+                 ("listener-present-connected-once-now",
+                  f"not old({NAME} in self._factories) or (n_calls('_connect') == 1 and "
+                  f"call_arg('_connect', 0, 1) == self._factories[{NAME}] and call_arg('_connect', 0, 2) == t and "
+                  "call_arg('_connect', 0, 3) == peer_addr)"),
+                 ("listener-present-nothing-queued",
+                  f"not old({NAME} in self._factories) or "
+                  "forall(lambda k: self._pending_opens[k] == old(self._pending_opens)[k], 'str')"),
+                 ("no-listener-queued-last-under-its-name",
+                  f"old({NAME} in self._factories) or (n_calls('_connect') == 0 and "
+                  f"self._pending_opens[{NAME}] == old(self._pending_opens)[{NAME}] + [(t, peer_addr)])"),
+                 ("other-names-untouched",
+                  f"forall(lambda k: k == {NAME} or self._pending_opens[k] == old(self._pending_opens)[k], 'str')"),
+                 ("only-through-_connect", "len(bcall_names()) == 4 * n_calls('_connect')")],
+             note="an OPEN appears exactly once: connected now if a listener exists, otherwise queued (FIFO per name) unless "
+                  "the application declared an expected set that does not contain the name: then it is refused"),
+    Contract(f"{SUB}:SubchannelDemultiplex.register", props=[PROP],
+             params={"subprotocol_name": "str", "factory": "opaque[Factory]"},
+             self_fields=DEMUX_FIELDS, modifies=["_factories", "_pending_opens"],
+             raises_exactly={"ValueError": "subprotocol_name in self._factories"},
+             ensures_raise={"ValueError": [("nothing-connected", "n_calls('_connect') == 0"),
+                                           ("listeners-kept", "forall(lambda k: (k in self._factories) == (k in old(self._factories)), 'str')"),
+                                           ("queue-kept", "forall(lambda k: self._pending_opens[k] == old(self._pending_opens)[k], 'str')")]},
+             ensures=[
+                 ("listening", "subprotocol_name in self._factories and self._factories[subprotocol_name] == factory"),
+                 ("other-listeners-kept",
+                  "forall(lambda k: k == subprotocol_name or ((k in self._factories) == (k in old(self._factories)) and "
+                  "self._factories[k] == old(self._factories)[k]), 'str')"),
+                 ("queue-for-this-name-emptied", "len(self._pending_opens[subprotocol_name]) == 0"),
+                 ("other-queues-untouched",
+                  "forall(lambda k: k == subprotocol_name or self._pending_opens[k] == old(self._pending_opens)[k], 'str')")],
+             internal_ensures=[
+                 ("every-queued-open-connected-exactly-once-FIFO",
+                  "len(done) == len(old(self._pending_opens)[subprotocol_name]) and forall(lambda j: implies(0 <= j and "
+                  "j < len(done), done[j] == old(self._pending_opens)[subprotocol_name][j]))")],
+             loops={0: {"header": "pending", "retype": {"pending": f"seq[{OPEN_T}]"},
+                        "ghost_init": {"done": f'empty_seq("{OPEN_T}")'},
+                        "ghost_update": {"done": "done + [(iter_call_arg('_connect', 2), iter_call_arg('_connect', 3))]"},
+                        "body_ensures": ["iter_call_arg('_connect', 1) == factory",
+                                         "iter_call_arg('_connect', 2) == at_iter(pending)[0][0] and "
+                                         "iter_call_arg('_connect', 3) == at_iter(pending)[0][1]"],
+                        "invariant": ["len(done) + len(pending) == len(at_entry(pending))",
+                                      "forall(lambda j: implies(0 <= j and j < len(done), done[j] == at_entry(pending)[j]))",
+                                      "forall(lambda j: implies(0 <= j and j < len(pending), "
+                                      "pending[j] == at_entry(pending)[len(done) + j]))"]}},
+             note="ghost `done` = the (transport, address) pairs handed to _connect, one per iteration, in queue order"),
+]
+
+INB_FIELDS = {"_open_subchannels": "dict[int,opaque[SubChannel]]", "_manager": "obj[ManagerB]", "_host_addr": "opaque[Addr]"}
+DX = "self._manager._subprotocol_factories"
+WILL_REFUSE = f"(subprotocol not in {DX}._factories) and not allows({DX}._expected, subprotocol)"
+OTHERS_KEPT = ("forall(lambda k: k == scid or ((k in self._open_subchannels) == (k in old(self._open_subchannels)) and "
+               "self._open_subchannels[k] == old(self._open_subchannels)[k]))")
+
+INB_CONTRACTS = [
+    Contract(f"{INB}:Inbound.handle_open", props=[PROP], params={"scid": "int", "subprotocol": "str"},
+             self_fields=INB_FIELDS, modifies=["_open_subchannels"],
+             ensures=[
+                 ("duplicate-OPEN-ignored",
+                  "not old(scid in self._open_subchannels) or (news('SubChannel') == 0 and n_calls('_got_open') == 0 and "
+                  "len(bcall_names()) == 0 and self._open_subchannels[scid] == old(self._open_subchannels)[scid])"),
+                 ("new-OPEN-one-subchannel-offered-once-under-the-requested-name",
+                  "old(scid in self._open_subchannels) or (news('SubChannel') == 1 and n_calls('_got_open') == 1 and "
+                  "new_field('SubChannel', 0, '_scid') == scid and new_field('SubChannel', 0, '_manager') is self._manager and "
+                  "new_field('SubChannel', 0, '_peer_addr').subprotocol == subprotocol and "
+                  "call_arg('_got_open', 0, 1) == new_obj('SubChannel', 0) and call_arg('_got_open', 0, 2).subprotocol == subprotocol)"),
+                 ("unexpected-subprotocol-refused-by-CLOSE-not-held-open",
+                  f"old(scid in self._open_subchannels) or not old({WILL_REFUSE}) or "
+                  "(bcalls('send_close') == 1 and bcall_arg('send_close', 0, 0) == scid and len(bcall_names()) == 1 and "
+                  "scid not in self._open_subchannels)"),
+                 ("otherwise-registered-and-not-closed",
+                  f"old(scid in self._open_subchannels) or old({WILL_REFUSE}) or "
+                  "(len(bcall_names()) == 0 and scid in self._open_subchannels and "
+                  "self._open_subchannels[scid] == new_obj('SubChannel', 0))"),
+                 ("other-subchannels-untouched", OTHERS_KEPT)],
+             note="the demultiplexer is used through its contract (_got_open): refusal condition and effect are those proved "
+                  "there; SubChannel construction is a boundary event here"),
+    Contract(f"{INB}:Inbound.handle_data", props=[PROP], params={"scid": "int", "data": "bytes"},
+             self_fields=INB_FIELDS, modifies=[],
+             ensures=[("unknown-subchannel-dropped", "old(scid in self._open_subchannels) or len(bcall_names()) == 0"),
+                      ("known-subchannel-gets-it-once",
+                       "not old(scid in self._open_subchannels) or (len(bcall_names()) == 1 and bcalls('remote_data') == 1 and "
+                       "bcall_recv('remote_data', 0) == self._open_subchannels[scid] and bcall_arg('remote_data', 0, 0) == data)")]),
+    Contract(f"{INB}:Inbound.handle_close", props=[PROP], params={"scid": "int"},
+             self_fields=INB_FIELDS, modifies=[],
+             ensures=[("unknown-subchannel-dropped", "old(scid in self._open_subchannels) or len(bcall_names()) == 0"),
+                      ("known-subchannel-gets-it-once",
+                       "not old(scid in self._open_subchannels) or (len(bcall_names()) == 1 and bcalls('remote_close') == 1 and "
+                       "bcall_recv('remote_close', 0) == self._open_subchannels[scid])")],
+             note="a CLOSE (or DATA) for a subchannel that is gone reaches no protocol: nothing after connectionLost"),
+    Contract(f"{INB}:Inbound.subchannel_closed", props=[PROP], params={"scid": "int", "sc": "opaque[SubChannel]"},
+             self_fields=INB_FIELDS, modifies=["_open_subchannels"],
+             raises_exactly={"KeyError": "scid not in self._open_subchannels",
+                             "AssertionError": "scid in self._open_subchannels and self._open_subchannels[scid] != sc"},
+             ensures=[("forgotten", "scid not in self._open_subchannels"), ("other-subchannels-untouched", OTHERS_KEPT)],
+             note="a finished subchannel is removed: later records for its id are dropped by handle_data/handle_close"),
+    Contract(f"{INB}:Inbound.subchannel_local_open", props=[PROP], params={"scid": "int", "sc": "opaque[SubChannel]"},
+             self_fields=INB_FIELDS, modifies=["_open_subchannels"],
+             raises_exactly={"AssertionError": "scid in self._open_subchannels"},
+             ensures=[("registered", "scid in self._open_subchannels and self._open_subchannels[scid] == sc"),
+                      ("other-subchannels-untouched", OTHERS_KEPT)],
+             note="a locally opened subchannel never replaces a live one with the same id"),
+]
+
+# ------------------------------------------------------------------ wiring: dilate(expected_subprotocols=) -> demultiplexer
+MGR_ATTRS = {"_S": "obj[SendB]", "_my_side": "str", "_transit_relay_location": "opt[str]", "_reactor": "obj[ReactorB]",
+             "_eventual_queue": "obj[EventualQueueB]", "_cooperator": "obj[CooperatorB]", "_acceptable_versions": "seq[str]",
+             "_ping_interval": "real", "_expected_subprotocols": "opt[set[str]]", "_no_listen": "bool",
+             "_status": "opt[callable]", "_initial_mailbox_status": "opt[opaque[WormholeStatus]]"}
+
+WIRING_CONTRACTS = [
+    Contract(f"{MGR}:Manager.__attrs_post_init__", props=[PROP], params={}, self_fields=MGR_ATTRS,
+             modifies=["_initial_mailbox_status"],
+             ensures=[("demultiplexer-enforces-the-set-the-application-declared",
+                       "self._subprotocol_factories._expected == self._expected_subprotocols"),
+                      ("inbound-routes-to-this-manager", "new_field('Inbound', 0, '_manager') is self"),
+                      ("no-connection-yet", "self._connection is None and self._my_role is None")],
+             replay={"driver": "c13_replay:wiring"},
+             note="WIRING obligation taken from the statement (\"the set the application declared as expected\"): the "
+                  "SubchannelDemultiplex that Inbound.handle_open consults must carry Manager._expected_subprotocols"),
+    Contract(f"{MGR}:Dilator.dilate", props=[PROP],
+             params={"transit_relay_location": "opt[str]", "no_listen": "bool", "wormhole_status": "opt[opaque[WormholeStatus]]",
+                     "status_update": "opt[callable]", "ping_interval": "opt[real]", "expected_subprotocols": "opt[set[str]]"},
+             self_fields={"_manager": "opt[obj[ManagerB]]", "_did_dilate": "obj[Once]", "_S": "obj[SendB]",
+                          "_reactor": "obj[ReactorB]", "_eventual_queue": "obj[EventualQueueB]", "_cooperator": "obj[CooperatorB]",
+                          "_acceptable_versions": "seq[str]", "_pending_dilation_key": "opt[bytes]",
+                          "_pending_wormhole_versions": "json", "_pending_inbound_dilate_messages": "seq[bytes]"},
+             modifies=["_manager", "_pending_inbound_dilate_messages"],
+             raises_exactly={"CanOnlyDilateOnceError": "self._did_dilate._called"},
+             ensures=[("one-manager-built-iff-none-yet", "news('Manager') == ite(old(self._manager is None), 1, 0)"),
+                      ("expected-set-passed-unchanged",
+                       "news('Manager') == 0 or new_field('Manager', 0, '_expected_subprotocols') == expected_subprotocols"),
+                      ("that-manager-kept", "news('Manager') == 0 or self._manager is new_obj('Manager', 0)")],
+             loops={0: {"header": "self._pending_inbound_dilate_messages", "invariant": []}},
+             note="Manager construction is a boundary event here (attrs field -> value as bound by the real class definition)"),
+    Contract("wormhole/_boss.py:Boss.dilate", props=[PROP],
+             params={"transit_relay_location": "opt[str]", "no_listen": "bool", "on_status_update": "opt[callable]",
+                     "ping_interval": "opt[real]", "expected_subprotocols": "opt[set[str]]"},
+             self_fields={"_D": "obj[DilatorB]", "_current_wormhole_status": "opaque[WormholeStatus]"}, modifies=[],
+             ensures=[("expected-set-passed-unchanged",
+                       f"bcalls('dilate') == 1 and passed('dilate', 0, '{MGR}:Dilator.dilate', 'expected_subprotocols') == expected_subprotocols"),
+                      ("nothing-else", "len(bcall_names()) == 1")],
+             note="the argument is bound through Dilator.dilate's real signature"),
+    Contract("wormhole/wormhole.py:_DeferredWormhole.dilate", props=[PROP],
+             params={"transit_relay_location": "opt[str]", "no_listen": "bool", "on_status_update": "opt[callable]",
+                     "ping_interval": "opt[real]", "expected_subprotocols": "opt[set[str]]"},
+             self_fields={"_boss": "obj[BossB]", "_enable_dilate": "bool"}, modifies=[],
+             raises_exactly={"NotImplementedError": "not self._enable_dilate"},
+             ensures=[("expected-set-passed-unchanged",
+                       "bcalls('dilate') == 1 and passed('dilate', 0, 'wormhole/_boss.py:Boss.dilate', 'expected_subprotocols') == expected_subprotocols"),
+                      ("nothing-else", "len(bcall_names()) == 1")]),
+    Contract(f"{MGR}:Manager.subchannel_closed", props=[PROP], params={"scid": "int", "sc": "opaque[SubChannel]"},
+             self_fields={"_inbound": "obj[InboundB]", "_outbound": "obj[OutboundB]"}, modifies=[],
+             effects=[("subchannel_closed", ["scid", "sc"]), ("subchannel_closed", ["scid", "sc"])],
+             internal_ensures=[("inbound-then-outbound", "bcall_recv('subchannel_closed', 0) is self._inbound and "
+                                                         "bcall_recv('subchannel_closed', 1) is self._outbound")],
+             note="SubChannel.close_subchannel reaches Inbound.subchannel_closed (contract above): the id is forgotten"),
+]
+
+
+def regf_wiring():
+    reg = base_registry()
+    register_classes(reg, [MGR, "wormhole/_boss.py", "wormhole/wormhole.py"])
+    for c in CONTRACTS:
+        reg.contracts[c.target] = c
+    for cls in ("Inbound", "Outbound", "OneShotObserver", "DilationStatus", "WormholeStatus", "DilatedWormhole"):
+        new_as_boundary(reg, cls)
+    new_as_boundary(reg, "Manager", fields={"_api": "opaque[DilatedWormhole]"})
+    reg.class_fields["ManagerB"] = {"_api": "opaque[DilatedWormhole]"}
+    reg.class_fields["Once"] = {"_called": "bool"}
+    # make_side() = hex of os.urandom(8): some str (its value plays no role in the wiring obligation)
+    reg.func_models[f"{MGR}:make_side"] = lambda it, args, kwargs, fr: it.fresh("str", "my_dilation_side")
+    sf = reg.spec_funcs
+
+    def passed(it, meth, k, target, pname):
+        """the value that the k-th recorded call of `meth` binds to parameter pname of the real function `target`"""
+        from pyvc import source
+        from pyvc.interp import Frame
+        meth, k, target, pname = it.concrete(meth), it.concrete(k), it.concrete(target), it.concrete(pname)
+        evs = [e for e in it.ctx.trace if e[0] == "bcall" and e[1][1] == meth]
+        fd = source.find_func(target)
+        if k >= len(evs) or fd is None:
+            return VObj("<missing>")
+        fr = Frame(fd, fd.module)
+        it.bind_args(fd.node, [VObj("<self>")] + list(evs[k][1][2]), dict(evs[k][1][3]), fr, Frame(None, fd.module))
+        return fr.locals[pname]
+
+    sf["passed"] = passed
+    return reg
+
+
+def once_hook(it, fr):
+    # Dilator._did_dilate = Once(CanOnlyDilateOnceError): the real Once.__call__ runs, with its real error type
+    from pyvc import source
+    o = fr.selfobj.fields["_did_dilate"]
+    o.fields["_errtype"] = VClass("CanOnlyDilateOnceError", source.find_class(MGR, "CanOnlyDilateOnceError"))
+
+
+for _c in WIRING_CONTRACTS:
+    if _c.target.endswith("Dilator.dilate"):
+        _c.pre_hook = once_hook
+
+CONTRACTS = SC_CONTRACTS + DEMUX_CONTRACTS + INB_CONTRACTS + WIRING_CONTRACTS
 
 
 def tasks():
-    return [ContractTask(c, regf) for c in CONTRACTS]
+    return [ContractTask(c, regf_wiring if c in WIRING_CONTRACTS else regf) for c in CONTRACTS]
 
 
 TRUSTED = ["z3/cvc5", "pyvc semantics of the Python subset and of Automat dispatch (state set first, outputs in order, "
